@@ -56,11 +56,18 @@ class FinalReady:
         self.expected = None
         self.ready = False
         self.calls = 0
+        self.fail_final = None      # fraction of the whole document's chunks after which the encoder fails (None: never)
+        self.fail_fired = False
 
     def __enter__(self):
         outer = self
 
+        def whole_document(o):
+            return isinstance(o, dict) and "signatures" in o and "packages" in o
         def encode(enc_self, o):
+            if outer.fail_final is not None and whole_document(o) and type(enc_self).iterencode is iterencode:
+                # route the one-shot encoder through the chunked one so that it, too, fails part-way
+                return "".join(iterencode(enc_self, o, False))
             r = outer.real(enc_self, o)
             outer.calls += 1
             if outer.expected is not None and r.encode("utf-8", "surrogatepass") == outer.expected:
@@ -68,8 +75,14 @@ class FinalReady:
             return r
         def iterencode(enc_self, o, _one_shot=False):
             chunks = []
-            for ch in outer.real_iter(enc_self, o, _one_shot):
+            limit = None
+            if outer.fail_final is not None and whole_document(o):
+                limit = max(1, int(outer.fail_final * (8 * (len(o.get("packages") or {}) + len(o.get("signatures") or {})))))
+            for ch in outer.real_iter(enc_self, o, _one_shot and limit is None):
                 chunks.append(ch)
+                if limit is not None and len(chunks) >= limit:
+                    outer.fail_fired = True
+                    raise faults.InjectedMemory("out of memory while encoding the document")
                 yield ch
             # only once the last chunk has been produced is the result complete (a writer that streams chunks into the file touches it earlier)
             outer.calls += 1
@@ -89,6 +102,7 @@ class FinalReady:
 
     def arm(self, expected):
         self.expected, self.ready, self.calls = expected, False, 0
+        self.fail_fired = False
 
 
 def judge(log, after, orig, raised, blind=False):
@@ -165,8 +179,11 @@ def _run(ck: Check, probe) -> None:
         for p in points:
             put(fn, orig)
             probe.arm(signed)
+            # what is raised there: an ordinary error, an interrupt (control-c / SIGINT), memory exhaustion, an exit request — in turn
+            fcls = faults.FAULT_CLASSES[(p + di) % len(faults.FAULT_CLASSES)]
+            ck.count("fault-class:" + fcls.__name__)
             with impl.quiet_stdout():
-                exc, _, log2 = faults.run_traced(call, fn, pkg, fault_at=p)
+                exc, _, log2 = faults.run_traced(call, fn, pkg, fault_at=p, fault_cls=fcls)
             ck.evaluations += 1
             total_points += 1
             ck.oracle_checks += 1
@@ -233,15 +250,15 @@ def _run(ck: Check, probe) -> None:
             ck.nontrivial_add((di, "ser", j))
         # faults raised from inside the key's sign() at the j-th artifact
         nart = len(doc["packages"]) + len(doc.get("packages.conda", {}))
-        for j in range(1, nart + 1):
+        for j, sign_exc in [(j_, c_) for j_ in range(1, nart + 1) for c_ in (RuntimeError, faults.InjectedInterrupt)]:
             put(fn, orig)
             calls = [0]
             real = impl.signing.serialize_and_sign
 
-            def failing(obj, key, _j=j):
+            def failing(obj, key, _j=j, _c=sign_exc):
                 calls[0] += 1
                 if calls[0] == _j:
-                    raise RuntimeError("hardware key unplugged")
+                    raise _c("hardware key unplugged")
                 return real(obj, key)
             impl.signing.serialize_and_sign = failing
             probe.arm(signed)
@@ -251,7 +268,7 @@ def _run(ck: Check, probe) -> None:
             finally:
                 impl.signing.serialize_and_sign = real
             ck.evaluations += 1
-            if not (isinstance(exc, RuntimeError) and "unplugged" in str(exc)):
+            if not (isinstance(exc, sign_exc) and "unplugged" in str(exc)):
                 if calls[0] >= j and get(fn) not in (orig, signed):
                     ck.violation("an error raised while signing the j-th artifact was swallowed and a partially signed file was written",
                                  {"artifact_index": j, "of": nart, "opens": log3, "error": repr(exc)[:120]}, "c18-partial-output:sign-fault")
@@ -261,6 +278,61 @@ def _run(ck: Check, probe) -> None:
             if get(fn) != orig or faults.touches(log3):
                 ck.violation("an error while signing the j-th artifact left a modified file", {"artifact_index": j, "of": nart, "opens": log3}, "c18-sign-fault-modified")
             ck.nontrivial_add((di, "sign", j))
+    # large documents (section sizes at which batching / streaming logic switches, gen.counts_of_interest): the fault-free run may touch the file only once
+    # the whole result has been serialized; and a failure *inside the encoder* while the whole document is being serialized (memory exhaustion half-way
+    # through — injected in json.JSONEncoder itself, whatever route the library takes to it) leaves the file as it was
+    big_counts = [c for c in gen.counts_of_interest() if c >= 2000][: (8 if ck.thorough else 4)]
+    for bi, cnt in enumerate(big_counts + [3]):
+        doc = {"info": {"subdir": "noarch"}, "packages": {"p%05d.tar.bz2" % j: {"name": "p", "build_number": j} for j in range(cnt)},
+               "packages.conda": {"c.conda": {"name": "c"}}, "zz-extra": {"note": ["kept"] * 5}}
+        k = gen.key(bi)
+        fn = os.path.join(d, "c18-large.json")
+        orig = gen.oracle_bytes(doc)
+        def call():
+            impl.signing.sign_all_in_repodata(fn, k.seed.hex())
+        put(fn, orig)
+        probe.arm(None)
+        with impl.quiet_stdout():
+            exc, _, log = faults.run_traced(call, fn, pkg, trace=False)
+        ck.evaluations += 1
+        if exc is not None:
+            ck.violation("signing a well-formed repodata file failed", {"artifacts": cnt, "error": repr(exc)[:300]}, "c18-baseline-failed:large")
+            continue
+        signed = get(fn)
+        put(fn, orig)
+        probe.arm(signed)
+        with impl.quiet_stdout():
+            exc, _, log = faults.run_traced(call, fn, pkg, trace=False)
+        ck.oracle_checks += 1
+        ck.count("large-document-runs")
+        t = faults.touches(log)
+        if probe.ready and t and not t[0][3]:
+            ck.violation("the output file was touched (opened for writing / replaced) before the result was fully serialized", {"artifacts": cnt, "events": log}, "c18-early-open:large")
+            continue
+        # the encoder fails half-way through the whole document
+        for frac in (0.5, 0.99):
+            put(fn, orig)
+            probe.arm(signed)
+            probe.fail_final = frac
+            try:
+                with impl.quiet_stdout():
+                    exc, _, log = faults.run_traced(call, fn, pkg, trace=False)
+            finally:
+                fired = probe.fail_fired
+                probe.fail_final = None
+            ck.evaluations += 1
+            if not fired:
+                ck.count("encoder-fault:not-reached")
+                continue
+            ck.oracle_checks += 1
+            ck.count("encoder-fault:fired")
+            after = get(fn)
+            if after not in (orig,) and not (exc is None and after == signed):
+                ck.violation("a failure while the whole document was being serialized left a truncated / partially written file",
+                             {"artifacts": cnt, "error": repr(exc)[:120], "file_len_before": len(orig), "file_len_after": len(after), "fully_signed_len": len(signed), "events": log},
+                             "c18-encoder-fault-modified")
+                break
+            ck.nontrivial_add(("encoder-fault", cnt, frac))
     ck.count("fault-points", total_points)
     # the step machine of the model: for every fault index before its output phase the file is unchanged and never opened for writing
     # (the executable counterpart of theorem fault_anywhere_before_output), and the fault-free run matches the observed run
@@ -409,7 +481,7 @@ def _run(ck: Check, probe) -> None:
             open(mfn, "wb").write(orig)
             probe.arm(gsigned)
             with impl.quiet_stdout():
-                exc, _, log2 = faults.run_traced(gcall, mfn, pkg, fault_at=p)
+                exc, _, log2 = faults.run_traced(gcall, mfn, pkg, fault_at=p, fault_cls=faults.FAULT_CLASSES[(p + mi) % len(faults.FAULT_CLASSES)])
             ck.evaluations += 1
             ck.oracle_checks += 1
             after = open(mfn, "rb").read()
